@@ -251,7 +251,7 @@ func RunC14(seed int64, tier, out string) {
 	res := hx.NewResult("C14", seed, tier)
 	w := &writer{dir: out, per: 12}
 	res.PerFile = 12
-	n := 16
+	n := 10
 	if tier == "thorough" {
 		n = 500
 	}
